@@ -83,10 +83,24 @@ PROBE = {"x": 0.75, "y": 1.25}
 class World:
     """One fresh set of variables, candidate objectives and constraints."""
 
-    def __init__(self):
+    # 0: x boxed, y free (LPs over objs[0] are unbounded);  1: both boxed (LPs bounded in both orientations);
+    # 2: no bounds at all (the first solve is box-free, boxes appear only through later edits)
+    ST0 = ['[("x", (Some (QQ 0 1), Some (QQ 4 1)))]',
+           '[("x", (Some (QQ 0 1), Some (QQ 4 1))); ("y", (Some (QQ (-1) 1), Some (QQ 3 1)))]',
+           '[]']
+
+    def __init__(self, variant=0):
         from optyx import Variable
-        self.x = Variable("x", lb=0.0, ub=4.0)
-        self.y = Variable("y")
+        self.variant = variant
+        if variant == 0:
+            self.x = Variable("x", lb=0.0, ub=4.0)
+            self.y = Variable("y")
+        elif variant == 1:
+            self.x = Variable("x", lb=0.0, ub=4.0)
+            self.y = Variable("y", lb=-1.0, ub=3.0)
+        else:
+            self.x = Variable("x")
+            self.y = Variable("y")
         x, y = self.x, self.y
         self.objs = [x + 2 * y, x ** 2 + y ** 2]
         self.cons = [x + y >= 1, x ** 2 + y <= 3, x >= 0.5, y <= 2]
@@ -95,7 +109,8 @@ class World:
         self.con_terms = [f"({self.ser.expr(c.expr)}, {SENSE[c.sense]})" for c in self.cons]
 
 
-LETTERS = ["min0", "min1", "max0", "max1", "subj0", "subj1", "subjL", "ubx", "lby", "read", "s:auto", "s:SLSQP", "s:trust-constr", "s:linprog", "s:highs-ds"]
+LETTERS = ["min0", "min1", "max0", "max1", "subj0", "subj1", "subjL", "ubx", "lby", "ubxN", "uby", "read",
+           "s:auto", "s:SLSQP", "s:trust-constr", "s:L-BFGS-B", "s:linprog", "s:highs-ds"]
 
 
 def op_term(w: World, L: str, toggles):
@@ -113,6 +128,10 @@ def op_term(w: World, L: str, toggles):
         return f'(OSetUb "x" (Some {ser.q(toggles["ubx"])}))'
     if L == "lby":
         return f'(OSetLb "y" (Some {ser.q(toggles["lby"])}))'
+    if L == "ubxN":
+        return '(OSetUb "x" None)'
+    if L == "uby":
+        return f'(OSetUb "y" (Some {ser.q(toggles["uby"])}))'
     if L == "read":
         return "OReadVars"
     return f"(OSolve {ser.s(L[2:])})"
@@ -124,42 +143,94 @@ def bnd_t(b):
     return f"({one(b[0])}, {one(b[1])})"
 
 
-def run_sequence(seq):
+class Runner:
+    """Executes letters on one live Problem; bound-edit values alternate so that repeated edits change something."""
+    UB, LB, UBY = [2.0, 3.0], [-1.0, -2.0], [2.5, 3.5]
+
+    def __init__(self, variant):
+        from optyx import Problem
+        self.w = World(variant)
+        self.P = Problem()
+        self.nub = self.nlb = self.nuby = 0
+
+    def toggles(self):
+        return {"ubx": self.UB[self.nub % 2], "lby": self.LB[self.nlb % 2], "uby": self.UBY[self.nuby % 2]}
+
+    def edit(self, L):
+        """Non-solve letters.  Returns False for solve letters."""
+        w, P, t = self.w, self.P, self.toggles()
+        if L.startswith("min"):
+            P.minimize(w.objs[int(L[3])])
+        elif L.startswith("max"):
+            P.maximize(w.objs[int(L[3])])
+        elif L == "subj0":
+            P.subject_to(w.cons[0])
+        elif L == "subj1":
+            P.subject_to(w.cons[1])
+        elif L == "subjL":
+            P.subject_to([w.cons[2], w.cons[3]])
+        elif L == "ubx":
+            w.x.ub = t["ubx"]; self.nub += 1
+        elif L == "lby":
+            w.y.lb = t["lby"]; self.nlb += 1
+        elif L == "ubxN":
+            w.x.ub = None
+        elif L == "uby":
+            w.y.ub = t["uby"]; self.nuby += 1
+        elif L == "read":
+            P.variables
+        else:
+            return False
+        return True
+
+    def fresh(self):
+        """A new Problem stating the live problem's current model."""
+        from optyx import Problem
+        F = Problem()
+        if self.P.objective is not None:
+            (F.maximize if self.P.sense == "maximize" else F.minimize)(self.P.objective)
+        for c in self.P.constraints:
+            F.subject_to(c)
+        return F
+
+
+def seam_snapshot(S, P, w):
+    """What reached SciPy, reduced to comparable numbers (callables probed at PROBE)."""
+    if S.linprog_calls:
+        c = S.linprog_calls[0]
+        tl = lambda a: None if a is None else np.asarray(a, dtype=float).tolist()
+        return {"route": "linprog", "c": tl(c["c"]), "A_ub": tl(c["A_ub"]), "b_ub": tl(c["b_ub"]), "A_eq": tl(c["A_eq"]), "b_eq": tl(c["b_eq"]),
+                "bounds": [list(b) for b in (c["bounds"] or [])], "method": c["method"]}
+    if S.minimize_calls:
+        c = S.minimize_calls[0]
+        V = [v.name for v in P.variables]
+        probe = np.array([PROBE[n] for n in V])
+        out = {"route": "minimize", "method": c["method"], "V": V, "fun": float(c["fun"](probe)),
+               "jac": None if c["jac"] is None else np.asarray(c["jac"](probe), dtype=float).tolist(),
+               "hess": c["hess"] is not None, "bounds": None if c["bounds"] is None else [list(b) for b in c["bounds"]],
+               "x0": np.asarray(c["x0"], dtype=float).tolist(),
+               "constraints": [[d["type"], float(d["fun"](probe)), np.asarray(d["jac"](probe), dtype=float).tolist()] for d in (c["constraints"] or [])]}
+        return out
+    return {"route": "none"}
+
+
+def run_sequence(seq, variant=0):
     """Execute the letters on a fresh Problem; returns (case term, per-step python observations)."""
-    from optyx import Problem
     from optyx.core.errors import NonLinearError, NoObjectiveError
-    w = World()
-    P = Problem()
+    R = Runner(variant)
+    w, P = R.w, R.P
     seen = []
     pyseen = []
-    ub_vals = [2.0, 3.0]
-    lb_vals = [-1.0, -2.0]
-    nub = nlb = 0
     op_terms = []
     for L in seq:
-        toggles = {"ubx": ub_vals[nub % 2], "lby": lb_vals[nlb % 2]}
-        op_terms.append(op_term(w, L, toggles))
+        op_terms.append(op_term(w, L, R.toggles()))
         po = "PNone"
         feasible = lambda call: stubs.mres(x=np.ones(len(call['x0'])), fun=float(call['fun'](np.ones(len(call['x0'])))))
         with stubs.Seams(minimize_script=[feasible, feasible]) as S, warnings.catch_warnings():
             warnings.simplefilter("ignore")
-            if L.startswith("min"):
-                P.minimize(w.objs[int(L[3])])
-            elif L.startswith("max"):
-                P.maximize(w.objs[int(L[3])])
-            elif L == "subj0":
-                P.subject_to(w.cons[0])
-            elif L == "subj1":
-                P.subject_to(w.cons[1])
-            elif L == "subjL":
-                P.subject_to([w.cons[2], w.cons[3]])
-            elif L == "ubx":
-                w.x.ub = toggles["ubx"]; nub += 1
-            elif L == "lby":
-                w.y.lb = toggles["lby"]; nlb += 1
-            elif L == "read":
+            if L == "read":
                 po = f"(PVars {ser.lst(ser.s(v.name) for v in P.variables)})"
-            else:
+            elif not R.edit(L):
                 try:
                     sol = P.solve(method=L[2:])
                 except NonLinearError:
@@ -172,6 +243,7 @@ def run_sequence(seq):
                         d = P._lp_cache
                         ql = lambda arr: ser.lst(ser.q(float(v)) for v in arr) if arr is not None else "[]"
                         qm = lambda M: ser.lst(ql(r) for r in M) if M is not None else "[]"
+                        # orientation as it reached linprog: c equals the model's c negated for maximise; read it from the call, not from the cache
                         po = (f"(PLinprog {ql(c['c'])} {qm(c['A_ub'])} {ql(c['b_ub'])} {qm(c['A_eq'])} {ql(c['b_eq'])} "
                               f"{ser.lst(bnd_t(b) for b in (c['bounds'] or []))} {ser.q(float(getattr(d, 'c0', 0.0)))} "
                               f"{'true' if d.sense == 'max' else 'false'} {ser.s(c['method'])})")
@@ -208,51 +280,58 @@ def run_sequence(seq):
               P._is_linear_cache is not None, bool(P._solver_cache and "hess_fn" in P._solver_cache)]
         seen.append(f"({ser.lst('true' if b else 'false' for b in fl)}, {po})")
         pyseen.append({"letter": L, "flags": fl, "obs": po[:200]})
-    st0 = '[("x", (Some (QQ 0 1), Some (QQ 4 1)))]'
-    case = f"({ser.lst(w.obj_terms)}, {ser.lst(w.con_terms)}, {st0}, {ser.lst(op_terms)}, {ser.lst(seen)})"
+    case = f"({ser.lst(w.obj_terms)}, {ser.lst(w.con_terms)}, {World.ST0[variant]}, {ser.lst(op_terms)}, {ser.lst(seen)})"
     return case, pyseen
 
 
-def real_vs_fresh(seq):
-    """The property's own oracle: live problem vs fresh problem built from the current state (real SciPy)."""
-    from optyx import Problem
-    w = World()
-    P = Problem()
-    ub_vals, lb_vals, nub, nlb = [2.0, 3.0], [-1.0, -2.0], 0, 0
-    for L in seq:
+def seam_vs_fresh(seq, variant=0):
+    """Concrete history on which a solve of the live problem hands SciPy something else than a freshly built problem
+    stating the same model would (stubs at the seams: no solver involved)."""
+    R = Runner(variant)
+    feasible = lambda call: stubs.mres(x=np.ones(len(call['x0'])), fun=float(call['fun'](np.ones(len(call['x0'])))))
+    for k, L in enumerate(seq):
         with warnings.catch_warnings():
             warnings.simplefilter("ignore")
             try:
-                if L.startswith("min"):
-                    P.minimize(w.objs[int(L[3])])
-                elif L.startswith("max"):
-                    P.maximize(w.objs[int(L[3])])
-                elif L == "subj0":
-                    P.subject_to(w.cons[0])
-                elif L == "subj1":
-                    P.subject_to(w.cons[1])
-                elif L == "subjL":
-                    P.subject_to([w.cons[2], w.cons[3]])
-                elif L == "ubx":
-                    w.x.ub = ub_vals[nub % 2]; nub += 1
-                elif L == "lby":
-                    w.y.lb = lb_vals[nlb % 2]; nlb += 1
-                elif L == "read":
-                    P.variables
-                else:
-                    live = P.solve(method=L[2:])
-                    F = Problem()
-                    (F.maximize if P.sense == "maximize" else F.minimize)(P.objective)
-                    if P.constraints:
-                        F.subject_to(P.constraints)
-                    fresh = F.solve(method=L[2:])
-                    same = live.status == fresh.status and set(live.values) == set(fresh.values) and all(
-                        abs(live.values[k] - fresh.values[k]) <= 1e-6 * max(1.0, abs(fresh.values[k])) for k in fresh.values)
-                    if not same:
-                        return {"sequence": seq, "at": L, "live": [live.status.value, live.values, live.objective_value],
-                                "fresh": [fresh.status.value, fresh.values, fresh.objective_value]}
+                if R.edit(L):
+                    continue
+                with stubs.Seams(minimize_script=[feasible, feasible]) as S:
+                    R.P.solve(method=L[2:])
+                live = seam_snapshot(S, R.P, R.w)
+                F = R.fresh()
+                with stubs.Seams(minimize_script=[feasible, feasible]) as S2:
+                    F.solve(method=L[2:])
+                fresh = seam_snapshot(S2, F, R.w)
             except Exception:
                 continue
+        if live != fresh:
+            diff = {key: [live.get(key), fresh.get(key)] for key in set(live) | set(fresh) if live.get(key) != fresh.get(key)}
+            return {"world": variant, "sequence": list(seq[:k + 1]), "at": L, "handed_to_scipy_live_vs_fresh": diff}
+    return None
+
+
+def real_vs_fresh(seq, variant=0):
+    """The property's own oracle: live problem vs fresh problem built from the current state (real SciPy)."""
+    R = Runner(variant)
+    for k, L in enumerate(seq):
+        with warnings.catch_warnings():
+            warnings.simplefilter("ignore")
+            try:
+                if R.edit(L):
+                    continue
+                live = R.P.solve(method=L[2:])
+                fresh = R.fresh().solve(method=L[2:])
+            except Exception:
+                continue
+        same = live.status == fresh.status and set(live.values) == set(fresh.values) and all(
+            live.values[k2] == fresh.values[k2] or abs(live.values[k2] - fresh.values[k2]) <= 1e-6 * max(1.0, abs(fresh.values[k2]))
+            for k2 in fresh.values)
+        if same and live.objective_value is not None and fresh.objective_value is not None:
+            same = (live.objective_value == fresh.objective_value
+                    or abs(live.objective_value - fresh.objective_value) <= 1e-6 * max(1.0, abs(fresh.objective_value)))
+        if not same:
+            return {"world": variant, "sequence": list(seq[:k + 1]), "at": L, "live": [live.status.value, live.values, live.objective_value],
+                    "fresh": [fresh.status.value, fresh.values, fresh.objective_value]}
     return None
 
 
@@ -268,28 +347,51 @@ def run(rep: vk.Report):
         short = [s for s in seqs if len(s) <= 2]
         three = [s for s in seqs if len(s) == 3]
         rng.shuffle(three)
-        seqs = short + three[:1100]
+        seqs = short + three[:1300]
     n_long = 400 if rep.tier == "quick" else 20000
     for _ in range(n_long):
         seqs.append(tuple(rng.choice(LETTERS) for _ in range(rng.randint(4, 8))))
     cases = Cases("histories", IMPORTS, CASE_TYPE, CHECKER, defs=DEFS)
-    for s in seqs:
-        case, pyseen = run_sequence(s)
-        cases.add(case, {"sequence": list(s), "steps": pyseen}, kinds=set(s) | {f"len{len(s)}"})
+    for k, s in enumerate(seqs):
+        variant = k % 3
+        case, pyseen = run_sequence(s, variant)
+        cases.add(case, {"sequence": list(s), "world": variant, "steps": pyseen}, kinds=set(s) | {f"len{len(s)}", f"world{variant}"})
     fails = cases.run(shard=250)
-    for i in fails[:30]:
-        seq = cases.meta[i]["sequence"]
-        wit = real_vs_fresh(seq)
+    # A broken tie is not yet a violation: look, among the failing histories (shortest first), for one on which the live problem
+    # demonstrably hands the solver something else than a fresh problem stating the same model (or returns another answer).
+    found = 0
+    tried_w = 0
+    seen_kinds = set()
+    for i in sorted(fails, key=lambda i: len(cases.meta[i]["sequence"]))[:800]:
+        if found >= 12:
+            break
+        seq, variant = cases.meta[i]["sequence"], cases.meta[i]["world"]
+        tried_w += 1
+        wit = seam_vs_fresh(seq, variant) or (real_vs_fresh(seq, variant) if tried_w <= 150 else None)
+        if wit is None:
+            continue
+        kind_key = (wit.get("at"), tuple(sorted((wit.get("handed_to_scipy_live_vs_fresh") or {"values": 0}).keys())), tuple(wit["sequence"][-3:]))
+        if kind_key in seen_kinds:
+            continue
+        seen_kinds.add(kind_key)
+        found += 1
+        model = cases.model_answer(i, lambda t: "match " + t + " with (_, _, st0, ops, _) => trace init st0 ops end")
+        rep.violation({"kind": "correspondence", "obligation": "every solve observes what a fresh problem stating the current model would (ProblemSM.v)",
+                       "sequence": seq, "world": variant, "implementation_steps": cases.meta[i]["steps"], "model": model, "witness": wit}, concrete=True)
+    if fails and not found:
+        i = min(fails, key=lambda i: len(cases.meta[i]["sequence"]))
         model = cases.model_answer(i, lambda t: "match " + t + " with (_, _, st0, ops, _) => trace init st0 ops end")
         rep.violation({"kind": "correspondence", "obligation": "per-step cache flags and seam arguments = model (ProblemSM.v)",
-                       "sequence": seq, "implementation_steps": cases.meta[i]["steps"], "model": model, "witness": wit},
-                      concrete=wit is not None)
+                       "failing_histories": len(fails), "shortest": cases.meta[i]["sequence"], "world": cases.meta[i]["world"],
+                       "implementation_steps": cases.meta[i]["steps"], "model": model, "witness": None,
+                       "search": f"{tried_w} failing histories replayed against fresh problems (seam arguments and real solves): no difference found"},
+                      concrete=False)
     # independent sampled search with real solvers
     searched = 0
-    for s in rng.sample(seqs, min(len(seqs), 60 if rep.tier == "quick" else 3000)):
+    for s in rng.sample(seqs, min(len(seqs), 90 if rep.tier == "quick" else 3000)):
         if any(L.startswith("s:") for L in s):
             searched += 1
-            wit = real_vs_fresh(list(s))
+            wit = real_vs_fresh(list(s), searched % 3)
             if wit:
                 rep.violation({"kind": "real-solver", "obligation": "solve = fresh problem solve", "witness": wit}, concrete=True)
     cov = rep.coverage
